@@ -604,6 +604,52 @@ fn run_one(text: &str) {
                     }
                 }
             }
+            "expect_routing" => {
+                // every stored item lies on the side of each non-degenerate plane above it to which a
+                // query equal to its own vector is sent first (margin = dot(normal, vector), zero exempt)
+                fn items_under(db: Database<D>, rtxn: &heed::RoTxn, index: u16, n: NodeId, out: &mut Vec<u32>) {
+                    match n.mode {
+                        NodeMode::Item => out.push(n.item),
+                        _ => match db.get(rtxn, &Key::tree(index, n.item)).unwrap() {
+                            Some(Node::Descendants(Descendants { descendants })) => out.extend(descendants.iter()),
+                            Some(Node::SplitPlaneNormal(SplitPlaneNormal { left, right, .. })) => {
+                                items_under(db, rtxn, index, left, out);
+                                items_under(db, rtxn, index, right, out);
+                            }
+                            _ => {}
+                        },
+                    }
+                }
+                let mut bad = None;
+                for r in raw.iter(&wtxn).unwrap() {
+                    let (k, v) = r.unwrap();
+                    let key = KeyCodec::bytes_decode(k).unwrap();
+                    if key.index != index || key.node.mode != NodeMode::Tree {
+                        continue;
+                    }
+                    if let Node::SplitPlaneNormal(SplitPlaneNormal { left, right, normal }) = NodeCodec::<D>::bytes_decode(v).unwrap() {
+                        if normal.is_zero() {
+                            continue;
+                        }
+                        let nv: Vec<f32> = normal.iter().collect();
+                        for (child, sign) in [(left, -1.0f32), (right, 1.0f32)] {
+                            let mut its = vec![];
+                            items_under(db, &wtxn, index, child, &mut its);
+                            for i in its {
+                                if let Some(vec) = writer.item_vector(&wtxn, i).unwrap() {
+                                    let m: f32 = vec.iter().zip(nv.iter()).map(|(a, b)| a * b).sum();
+                                    if m * sign < 0.0 {
+                                        bad = Some(format!("item {i} sits on the {} of split {} but its margin is {m}", if sign < 0.0 { "left" } else { "right" }, key.node.item));
+                                    }
+                                }
+                            }
+                        }
+                    }
+                }
+                if let Some(b) = bad {
+                    verdict.push(b);
+                }
+            }
             "expect_buckets_within" => {
                 let cap: u64 = tok[1].parse().unwrap();
                 for r in raw.iter(&wtxn).unwrap() {
